@@ -41,7 +41,7 @@ KEYWORDS = {'first-child': [('nth-child', 0, 1)], 'last-child': [('nth-last-chil
             'first-of-type': [('nth-of-type', 0, 1)], 'last-of-type': [('nth-last-of-type', 0, 1)],
             'only-of-type': [('nth-of-type', 0, 1), ('nth-last-of-type', 0, 1)]}
 INTER = ['none', 'blank', 'comment', 'mixed']
-PLACE = ['parent', 'top', 'detached', 'orphan']
+PLACE = ['parent', 'top', 'detached', 'orphan', 'iframe']
 
 
 def spellings(a, b, rng=None):
@@ -131,9 +131,17 @@ def build(seq, inter, place, variant):
         for n in nodes:
             soup.append(n)
         return soup, soup, sibs
-    div = soup.new_tag('div')
+    div = soup.new_tag('iframe' if place == 'iframe' else 'div')
     for n in nodes:
         div.append(n)
+    if place == 'iframe':
+        # siblings that are direct children of an iframe element (html.parser / API-built trees keep them as elements)
+        body = soup.new_tag('body')
+        wrap = soup.new_tag('div')
+        wrap.append(div)
+        body.append(wrap)
+        soup.append(body)
+        return soup, soup, sibs
     if place == 'parent':
         body = soup.new_tag('body')
         body.append(div)
@@ -151,6 +159,8 @@ def plan(tier, seed):
         units.append({'kind': 'square', 'R': R, 'seqs': seqs[i:i + chunk], 'seed': seed})
     for i in range(16 if tier == 'quick' else 64):
         units.append({'kind': 'large', 'seed': seed * 7919 + i, 'n': 150 if tier == 'quick' else 600})
+    for i in range(16 if tier == 'quick' else 64):
+        units.append({'kind': 'ns', 'seed': seed * 7919 + 500 + i, 'n': 60 if tier == 'quick' else 300})
     return units
 
 
@@ -200,6 +210,7 @@ def run_unit(u):
     res = {'evals': 0, 'sigs': [], 'viol': [], 'samples': [], 'counters': {}}
     cn = res['counters']
     sigs = set()
+    viol_list = res['viol']
 
     def bump(k, n=1):
         cn[k] = cn.get(k, 0) + n
@@ -264,6 +275,56 @@ def run_unit(u):
                             st, got, exp = one(sv, target, top, sibs, klist, text, ref, idmap, orphan)
                             record(st, seq, inter, place, variant, text, klist, got, exp, sibs)
                             bump('keyword_forms')
+    elif u['kind'] == 'ns':
+        # namespace-aware trees with siblings in mixed namespaces and a caller map with a default namespace: positions
+        # count *all* element siblings, whatever their namespace (the implied `of *|*`)
+        from vlib import cases
+        from vlib.trees import E, NS_SVG, NS_XHTML
+        rng = random.Random(u['seed'])
+        NSX = 'urn:v:x'
+        for _ in range(u['n']):
+            n = rng.randint(2, 7)
+            kids = []
+            for i in range(n):
+                r = rng.random()
+                e = E(rng.choice('ab'))
+                if r < .4:
+                    e.prefix, e.ns = 'x', NSX
+                elif r < .6:
+                    e.prefix, e.ns = 's', NS_SVG
+                kids.append(e)
+            root = E('root', {}, kids, nsdecl={'x': NSX, 's': NS_SVG})
+            if rng.random() < .5:
+                root.nsdecl[''] = 'urn:v:d'
+                root.ns = 'urn:v:d'
+                for k in kids:
+                    if k.prefix is None:
+                        k.ns = 'urn:v:d'
+            nsmap = rng.choice([{'': NSX}, {'': 'urn:v:d', 'x': NSX}, {'x': NSX, 's': NS_SVG}, {'': NS_SVG, 'q': NSX}, None])
+            try:
+                case = cases.Case([root], rng.choice(['xml', 'api-xml']), ['doc'], nsmap=nsmap)
+            except Exception:  # noqa: BLE001
+                continue
+            for _s in range(8):
+                kind = rng.choice(KINDS)
+                a = rng.choice([0, 1, 2, -1, 3])
+                b = rng.randint(-2, n)
+                pseudo = ('nth', kind, a, b, None, None) if rng.random() < .8 else (rng.choice(['first-child', 'last-child', 'only-child', 'first-of-type', 'last-of-type']),)
+                comp = {'tag': rng.choice([None, None, ('*', '*'), ('x', '*'), (None, 'a')]), 'ids': [], 'classes': [], 'attrs': [], 'pseudos': [pseudo]}
+                ast = [[comp]]
+                st, info = cases.compare_select(sv, case, ast)
+                res['evals'] += 1
+                bump('mixed_namespace_cases')
+                if st in ('agree', 'unspec'):
+                    if st == 'agree' and info['nontrivial']:
+                        bump('nontrivial')
+                        sigs.add(sig('ns', info['text'], n, repr(nsmap)))
+                    continue
+                bump('VIOL')
+                if len(viol_list) < 8:
+                    viol_list.append(case.witness(ast, info['text'], '%s: select(%r, namespaces=%r) on %s -> got %s, An+B over all element siblings says %s' % (
+                        st, info['text'], nsmap, trees.describe(case.soup, 300), info.get('got', info.get('exc')), info.get('exp')),
+                        nsmode=True, **{'class': sig('ns', st, kind)}))
     else:
         rng = random.Random(u['seed'])
         for _ in range(u['n']):
@@ -291,6 +352,11 @@ def run_unit(u):
 
 def replay(w):
     import soupsieve as sv
+    if w.get('nsmode'):
+        from vlib import cases
+        case = cases.Case(cases.rebuild(w), w['how'], w['target'], nsmap=w.get('nsmap'))
+        st, info = cases.compare_select(sv, case, w['ast'], w.get('selector'))
+        return None if st in ('agree', 'unspec') else dict(w, status_now=st)
     target, top, sibs = build(w['seq'], w['inter'], w['place'], w['variant'])
     top_sn, idmap = trees.snapshot(top)
     ref = refsel.Ref(top_sn, idmap[id(target)], False)
@@ -310,7 +376,7 @@ def inconclusive(cn, tier):
     for p in PLACE:
         if not cn.get('place:' + p):
             out.append('placement %s not exercised' % p)
-    if not cn.get('of_S') or not cn.get('keyword_forms') or not cn.get('large_coefficients'):
+    if not cn.get('of_S') or not cn.get('keyword_forms') or not cn.get('large_coefficients') or not cn.get('mixed_namespace_cases'):
         out.append('of S / keyword / large-coefficient workloads missing')
     return out
 
